@@ -186,6 +186,7 @@ func (w *World) runMonitors() {
 		}
 	}
 
+	busyAtStartCall := false
 	for i := range hist {
 		e := hist[i]
 		now = e.t
@@ -196,8 +197,11 @@ func (w *World) runMonitors() {
 			if !started && !stopping {
 				expectDial = e.t // the supervisor dials at once
 			}
+			// a Start that overlaps a Stop of another goroutine may run before it (the order of the two calls in the history
+			// is the order in which the goroutines were launched): false is then the truthful answer
+			busyAtStartCall = started || stopping
 		case "start":
-			if !started && !stopping && !e.b {
+			if !started && !stopping && !e.b && !busyAtStartCall {
 				w.hitOnce(seen, "restart-fails", fmt.Sprintf("@%d: Start returned false although the service was stopped", e.t))
 			}
 			if e.b {
